@@ -8,7 +8,7 @@ import core      # noqa: E402
 
 # ('rec': traces recorded from the repository's own tests, harness/recorded.py)
 SUITES = {'C17': ('inplace', 'pack'), 'C10': ('pack', 'sim'), 'C03': ('tour', 'sim', 'pack', 'rec'),
-          'C04': ('tour', 'sim', 'pack', 'rec'), 'C05': ('tour', 'sim', 'pack', 'rec'), 'C09': ('tour', 'sim', 'rec'),
+          'C04': ('tour', 'sim', 'pack', 'rec'), 'C05': ('tour', 'sim', 'pack', 'rec'), 'C09': ('tour', 'sim', 'pack', 'rec'),
           'C01': ('tour', 'sim', 'pack', 'rec'), 'C02': ('tour', 'sim', 'pack'), 'C07': ('tour', 'sim', 'rec'),
           'C13': ('tour', 'sim', 'rec'), 'C14': ('tour', 'sim', 'rec'), 'C06': ('sched', 'rec')}
 
